@@ -10,7 +10,7 @@ COMMON_NOTE = ('Trusted: assumed contracts for bytes/futures channels/write_all/
                'the stated extraction rewrites (DESIGN.md section 3); the futures::select! loop of Context::run '
                '(handlers run one at a time to completion); Verus/Z3/rustc. Interleavings are reduced to sequences of handler calls by that assumption. '
                'Bounded stand-ins that run beside the proof and are never counted as proved (evidence: bounded_native_replays): scenario replays of the property against the real crate and, for C05 C06 C10 C11 C15, '
-               'the model-based random-history replay replay/tests/h_model.rs (quick: 1500 histories x 40 steps + 20 x 1500 steps; thorough: x10); for C07 C08 C09 its inbound counterpart replay/tests/h_inbound.rs (1000 x 40 + 10 x 1500 steps); they decide only when the deductive check cannot read changed code (exit 2) or as a second opinion.')
+               'the model-based random-history replay replay/tests/h_model.rs (quick: 1500 histories x 40 steps + 20 x 1500 steps; thorough: x10); for C07 C08 C09 its inbound counterpart replay/tests/h_inbound.rs (1000 x 40 + 10 x 1500 steps); for C17 replay/tests/h_resume.rs (2000 histories ending in a lost connection and a resumed session); they decide only when the deductive check cannot read changed code (exit 2) or as a second opinion.')
 
 CLAIMS = {
     'C01': ('proof', 'Verus discharges, on the real ByteLen/Encode/SizedPacket/PacketID impls of every outbound packet (CONNECT, AUTH, PUBLISH, SUBSCRIBE, UNSUBSCRIBE, DISCONNECT, PINGREQ, PUBACK/PUBREC/PUBREL/PUBCOMP) and of every primitive and property '
